@@ -613,6 +613,9 @@ where
     pub async fn clear(&self) -> Result<()> {
         self.inner.memory.clear();
         self.inner.storage.destroy().await?;
+        // A lookup that was reading from the disk cache while it was being destroyed may have put the entry it loaded
+        // back into memory: clear memory again, so that nothing from before the clear is served after it returns.
+        self.inner.memory.clear();
         Ok(())
     }
 
